@@ -411,6 +411,9 @@ class Ctx:
             "wall_s": round(time.time() - self.t0, 1),
             "violations": self.violations,
         }
+        if os.environ.get("VERIF_REPO", "/repo").rstrip("/") != "/repo":
+            # a sensitivity run against a mutated scratch copy: evidence/ only ever describes /repo itself
+            return 1 if self.violations else 0
         os.makedirs(os.path.join(VERIF, "evidence"), exist_ok=True)
         with open(os.path.join(VERIF, "evidence", self.prop + ".json"), "w") as f:
             json.dump(ev, f, indent=1, default=str)
